@@ -48,6 +48,17 @@ def run_accepts(case):
         acc += want
     if BC.snap_cfg(G) != before:
         raise Fail("mutates_argument", "cfg_accepts_word changed the grammar")
+    alt = case.get("alt_start")
+    if alt is not None and alt in spec["V"] and alt != spec["S"]:
+        # the same rules with another start variable, queried in the same process right after the first grammar
+        spec2 = dict(spec, S=alt)
+        G2 = BC.mk_cfg(spec2)
+        for w in ws:
+            got = lib(cfg_accepts_word, G2, w)
+            want = RC.accepts(spec2, w)
+            if got is not want:
+                raise Fail("cfg_accepts_word_other_start", "cfg_accepts_word(%r) = %r for the same rules with start variable %s (queried after start variable %s), but %s %s %r" %
+                           (w, got, alt, spec["S"], alt, "derives" if want else "does not derive", w), word=w)
     cls = grammar_classes(spec)
     if RC.accepts(spec, ""):
         cls.add("nullable_start")
@@ -77,8 +88,12 @@ def run_cyk(case):
 @st.composite
 def accept_cases(draw, tier):
     two = draw(st.integers(0, 2)) > 0
-    spec = draw(GC.cfg_specs(max_vars=4 if tier == "quick" else 5, terms=("a", "b") if two else ("a",), simple=draw(st.booleans())))
-    return {"cfg": spec, "L": 4 if two else 6}
+    if draw(st.integers(0, 4)) == 0:
+        spec = draw(GC.unit_chain_specs(terms=("a", "b") if two else ("a",)))
+    else:
+        spec = draw(GC.cfg_specs(max_vars=4 if tier == "quick" else 5, terms=("a", "b") if two else ("a",), simple=draw(st.booleans())))
+    alt = spec["V"][draw(st.integers(0, len(spec["V"]) - 1))] if draw(st.booleans()) else None
+    return {"cfg": spec, "L": 4 if two else 6, "alt_start": alt}
 
 
 @st.composite
